@@ -22,6 +22,8 @@ def ev_text(ev):
         return "A:%d" % ev[1]
     if k == "rsp":
         return "R:%d" % cls_id(A.KINDS[ev[1]][0])
+    if k == "rsp2":
+        return "R2:%d:%d" % (cls_id(A.KINDS[ev[1]][0]), cls_id(A.KINDS[ev[2]][0]))
     if k == "data":
         return "D"
     if k == "tick":
@@ -35,6 +37,9 @@ def canon_step(items):
     """Within one settle the relative order of request endings is not observable: sort them."""
     items = [x.split(":")[0] + ":" + x.split(":")[1] + ":R" if x.startswith("E:") and x.split(":")[2] == "R" else x for x in items]
     keep = [x for x in items if not x.startswith("E:")]
+    # ACKs written for incoming frames first (two frames in one read chunk are both acknowledged before any woken
+    # task runs; the model settles after each frame), then the data frames in order, then the endings
+    keep = [x for x in keep if x.startswith("K:")] + [x for x in keep if not x.startswith("K:")]
     ends = sorted(x for x in items if x.startswith("E:"))
     return keep + ends
 
@@ -79,7 +84,12 @@ def gen_scenario(rng, focus="mixed", length=None):
             elif x < 0.52:
                 ev = ("ack", r.proto._pack_seq if rng.random() < 0.8 else rng.randrange(4))
             elif x < 0.68 and live:
-                ev = ("rsp", rng.choice(live)[1])
+                if rng.random() < 0.25:
+                    # two responses in one read chunk: a duplicate, or the responses of two outstanding requests
+                    a = rng.choice(live)[1]
+                    ev = ("rsp2", a, a if rng.random() < 0.5 else rng.choice(live)[1])
+                else:
+                    ev = ("rsp", rng.choice(live)[1])
             elif x < 0.72:
                 ev = ("rsp", rng.choice(issued)[1])
             elif x < 0.80:
